@@ -61,6 +61,7 @@ type Options struct {
 	DisableSwaps      bool
 	DisableMultiSwaps bool
 	NoOptions         bool
+	Tracing           bool // a trace collector endpoint is configured (nothing listens there)
 }
 
 func New(nUsers int, kt fpb.KeyType) *World {
@@ -103,6 +104,9 @@ func (w *World) ConfigJSON(symbol string, o Options) string {
 			FeeSetter:        &fpb.Wallet{Address: w.FeeSet.Addr},
 			FeeAddressSetter: &fpb.Wallet{Address: w.FeeASet.Addr},
 		},
+	}
+	if o.Tracing {
+		cfg.Contract.TracingCollectorEndpoint = &fpb.CollectorEndpoint{Endpoint: "127.0.0.1:4318"}
 	}
 	if !o.NoOptions {
 		cfg.Contract.Options = &fpb.ChaincodeOptions{DisabledFunctions: o.Disabled, DisableSwaps: o.DisableSwaps, DisableMultiSwaps: o.DisableMultiSwaps}
